@@ -335,6 +335,13 @@ func genCase(rng *rand.Rand, exhaust int) *ncase {
 		if rng.Intn(4) == 0 {
 			c.Mapped = append(c.Mapped, "1.2.3.5")
 		}
+		if rng.Intn(4) == 0 {
+			// static mapped/local pairs configured on a NAPT NAT (RouterConfig.StaticIPs "ext/local" without the 1:1
+			// mode): legal, and without meaning for a NAPT; translation and filtering must be what they are without
+			for i := range c.Mapped {
+				c.Local = append(c.Local, fmt.Sprintf("192.168.0.%d", 10+i))
+			}
+		}
 	}
 	L := c.LifeNs
 	if L == 0 {
